@@ -24,8 +24,10 @@ TABLES = {
 }
 # a table whose password-protected user has a connection limit of 1 that another session is holding
 TABLES["bob-held-by-another-session"] = [M.UserSpec(None), M.UserSpec("bob", "pw", home="/d", maxconn=1)]
+# a user whose password is the empty string has a password all the same
+TABLES["empty-password"] = [M.UserSpec(None), M.UserSpec("eve", "", home="/d"), M.UserSpec("bob", "pw", home="/home")]
 HELD = {"bob-held-by-another-session": "bob"}
-LOGIN = ["USER anonymous", "USER alice", "USER bob", "USER nobody", "USER", "PASS pw", "PASS wrong", "PASS",
+LOGIN = ["USER anonymous", "USER alice", "USER bob", "USER nobody", "USER eve", "USER", "PASS pw", "PASS wrong", "PASS",
          "PASV", "@data", "CWD /d", "RNFR /g", "REST 2"]
 PROBES = ["PWD", "CWD /d", "CDUP", "MKD /new", "RMD /home", "DELE /g", "RNFR /g", "RNTO /h2", "MLST /g", "MLSD /", "LIST /",
           "RETR /g", "STOR /up", "APPE /g", "TYPE I", "PBSZ 0", "PROT P", "PASV", "EPSV", "ABOR", "REST 1", "SYST", "FOO",
